@@ -121,18 +121,27 @@ class HarnessError(Exception):
 
 
 BUILD_TIME = [0.0]   # seconds spent building; not charged to a check's exploration budget
+_VJ_CACHE = {}
+_VJ_LOCK = threading.Lock()
 
 
 def vjanet(variant="fast"):
-    t = time.time()
-    try:
-        return _build.get(variant)
-    except _build.BuildError as e:
-        sys.stderr.write("BUILD FAILED (exit 2)\n%s\n" % e)
-        sys.stdout.flush()
-        os._exit(2)
-    finally:
-        BUILD_TIME[0] += time.time() - t
+    """Path of the vjanet binary for this variant (built on first use, then pinned for the whole run
+    so that a commit to /repo in the middle of a run cannot change the system under test)."""
+    with _VJ_LOCK:
+        if variant in _VJ_CACHE:
+            return _VJ_CACHE[variant]
+        t = time.time()
+        try:
+            exe = _build.get(variant)
+        except _build.BuildError as e:
+            sys.stderr.write("BUILD FAILED (exit 2)\n%s\n" % e)
+            sys.stdout.flush()
+            os._exit(2)
+        finally:
+            BUILD_TIME[0] += time.time() - t
+        _VJ_CACHE[variant] = exe
+        return exe
 
 
 def base_env(extra=None):
@@ -495,7 +504,7 @@ class Check:
             self.cov["traces_validated_against_impl"] = self.cov["evaluations"]
         ev = dict(property_id=self.prop, tier=self.tier, seed=self.seed, level=self.level,
                   coverage=self.cov, assumptions=self.assumptions,
-                  wall_s=round(self.elapsed(), 2), violations=self.violations)
+                  wall_s=round(time.time() - self.t0, 2), violations=self.violations)
         os.makedirs(os.path.join(VERIF, "evidence"), exist_ok=True)
         p = os.path.join(VERIF, "evidence", "%s.json" % self.prop)
         with open(p + ".tmp", "w") as f:
@@ -504,7 +513,7 @@ class Check:
         c = self.cov
         print("%s %s: states=%d transitions=%d evaluations=%d outcomes=%d exhaustive=%s caps=%s violations=%d wall=%.1fs" % (
             self.prop, self.tier, c["states"], c["transitions"], c["evaluations"], c["distinct_outcomes"],
-            c["exhaustive"], c["caps_hit"], self.violations, self.elapsed()))
+            c["exhaustive"], c["caps_hit"], self.violations, time.time() - self.t0))
         sys.stdout.flush()
         sys.exit(1 if self.violations else 0)
 
